@@ -43,23 +43,22 @@ Lemma pregel_batch : forall g, pregel_graph g -> batch_graph g.
 Proof. intros g (He & Hm & Hr). split; [exact He|]. split; [exact Hr|]. left. exact Hm. Qed.
 
 Lemma nested_equiv_batch_l : forall F, Forall batch_graph F ->
-  forall x eU0 coU eU' vU e cos e' cos' co,
-    EOKe eU0 -> EOKe e ->
+  forall mods x eU0 coU eU' vU e cos e' cos' co,
     run_drive (map strip F) false [] x eU0 = ([coU], eU') -> co_out coU = ODone vU ->
-    run_drive F true [] x e = (cos, e') -> cos = cos' ++ [co] ->
+    run_drive F true mods x e = (cos, e') -> cos = cos' ++ [co] ->
     is_interrupt (co_out co) \/
     (co_out co = ODone vU /\
      Permutation (good (all_logs cos)) (co_log coU) /\
      exists LU LI, trE eU' = trE eU0 ++ LU /\ trE e' = trE e ++ LI /\ Permutation LI LU).
 Proof.
-  intros F HF x eU0 coU eU' vU e cos e' cos' co HeU He Href HvU Hd Hcos.
+  intros F HF mods x eU0 coU eU' vU e cos e' cos' co Href HvU Hd Hcos.
   destruct F as [|g0 rest].
   { simpl in Href. inversion Href. }
   assert (HF' : Forall (good_graph batchJ) (g0 :: rest)).
   { eapply Forall_impl; [|exact HF]. intros g Hg. apply batch_good. exact Hg. }
   unfold run_drive in Hd.
-  exact (nested_equiv_l (g0 :: rest) batchJ HF' g0 rest eq_refl x eU0 coU eU' vU max_resumes e cos e' cos' co
-           HeU He Href HvU Hd Hcos).
+  exact (nested_equiv_l (g0 :: rest) batchJ HF' g0 rest eq_refl mods x eU0 coU eU' vU max_resumes e cos e' cos' co
+           Href HvU Hd Hcos).
 Qed.
 
 (* ---------- non-vacuity for the all-predecessor branch: a diamond START -> {2, 3} -> 4 -> END in all-predecessor
